@@ -63,6 +63,14 @@ Reading.
   the domain (not judged).
 * a call with the optional arguments omitted is the documented default call (mode 0, velocity 64, "shift", no minimum
   ppq; import mode 0): theorem default_call over the defaults regenerated from the live signatures.
+* "time signatures, key signatures ... appear at the same musical positions" after the import: `load_score_midi` gives
+  every part it creates `sorted(set(...))` of the signature events of the tracks that contribute a (track, channel)
+  cell to the part (`make_track_to_part_mapping`), plus those of tracks without notes; when some track with notes has
+  time signatures and another has none they are shared across all parts (the "sanitize" step), and a part without any
+  gets 4/4.  For the file of an export this makes the signatures of an imported part those of the score parts with a
+  note in one of its tracks, at the written ticks (theorems import_key_signature_positions,
+  import_time_signature_cases, import_time_sig_change_positions, import_signatures_spec); the `impspec` stream compares
+  this prediction, computed from the SCORE alone, with the real import in the same and in other modes.
 * a `pad_bar` origin that is not a multiple of a tick (bar length of the first signature not representable in
   any division of the score, e.g. 3/8 with one division per quarter) is outside the generated domain
   (`ticks_integral_pad_partial` states the hypothesis; counter-example in Props/C04.lean).
@@ -83,7 +91,7 @@ DRIVER = "drv_c04"
 PROPS = ["PartituraModel.Props.C04", "PartituraModel.Props.C04Export", "PartituraModel.Props.C04Sigs",
          "PartituraModel.Props.C04Cells", "PartituraModel.Props.C04History", "PartituraModel.Props.C04Edit",
          "PartituraModel.Props.C04Total", "PartituraModel.Props.C04ImportSigs",
-         "PartituraModel.Props.C04Domain"]
+         "PartituraModel.Props.C04Domain", "PartituraModel.Props.C04ImportMeta"]
 TRUSTED = [
     "mido: message (de)serialisation, variable-length delta times, end_of_track appended on save; the file is "
     "written to a buffer and read back with mido.MidiFile before anything is compared",
@@ -96,6 +104,10 @@ TRUSTED = [
     "binary64 quarter_map values of the score are snapped to the rational they stand for (denominator <= 10^6) before "
     "they are compared with the model's exact scoreRows",
     "Python dict insertion order; np.lcm.reduce on int64 (no overflow for the generated divisions)",
+    "sorted(set(...)) of (tick, numerator, denominator) / (tick, key name) tuples is modelled by insertion into a strictly "
+    "ascending list under the lexicographic order of the components (Lean's order on strings = Python's on the ASCII "
+    "key names); the options quantization_unit / estimate_voice_info / estimate_key of load_score_midi are off (their "
+    "defaults, regenerated from the live signature: import_options_default_off)",
     "Part.add / Part.remove / set_quarter_duration as seen by the exporter are modelled on the tables it reads "
     "(Model/ScoreEdit.lean: quarter-duration table walk, row inserted after the rows that start at or before it, row "
     "erased, time signature replaced); the timeline mechanics behind them are C01's subject; notes are added only at "
@@ -110,8 +122,10 @@ PARTIAL = [
     "zero_length_iff_no_duration_pad_partial / history_roundtrip_pad_partial / score_roundtrip_any_import_mode_pad_partial: "
     "pad_bar needs beat_type | 4*beats*ppq (bar of the first signature on the tick grid) - pad_bar_integral_iff proves "
     "that this is exactly the condition (necessary and sufficient), so these cannot be strengthened; roundtrip_ticks "
-    "(written integer ticks) and export_returns hold for pad_bar without it; property_C04 / property_end_to_end are "
-    "stated for shift and time_sig_change",
+    "(written integer ticks) and export_returns hold for pad_bar without it; property_C04 / property_end_to_end / "
+    "property_C04_signatures are stated for shift and time_sig_change (the stage theorems about signatures - "
+    "key_signature_positions, import_key_signature_positions, import_time_signature_cases, import_signatures_spec - "
+    "hold for pad_bar as well, on the written ticks)",
     "time_sig_change_positions: which signatures are kept and where events may stand is proved; the numerator written "
     "for an irregular measure (whole beats, or halved beats up to /128 after fix C04-9, truncated when not dyadic) and "
     "the dropping of the first of two signatures at one tick are modelled and compared; the oracle demands the "
@@ -121,11 +135,17 @@ PARTIAL = [
     "the theorems are about the models (saveScoreMidi / loadScoreMidi / setQuarterDuration and their named pieces); that "
     "save_score_midi / load_score_midi / Part.set_quarter_duration compute the modelled functions, and that the theorems' "
     "vocabulary (routedTo, trackKS, trackTS, trackTempo, scoreRows, importedRows, writtenCells, ScoreNoOverlap of "
-    "Model/ScoreMidiSpec.lean) means what the real file holds, is established by the differential run only",
+    "Model/ScoreMidiSpec.lean; importedPartIds, specImportedKS, specImportedTS of Model/ScoreMidiImportSpec.lean) means "
+    "what the real file / the real import holds, is established by the differential run only",
     "create_part: only the quarter duration it sets and the placement of the notes in divisions (create_part_placement); "
     "measures, ties, tuplets, symbolic durations of the created part are C11's subject",
-    "the imported KEY and TIME signature positions (sanitize step, global tracks, union over the tracks of a part) are "
-    "modelled and compared, not proved; the imported tempo positions are proved (import_tempo_positions)",
+    "imported signatures: the KEY signatures of every imported part are proved for every policy and every pair of export / "
+    "import mode (import_key_signature_positions, import_signatures_spec), the TIME signatures for shift / pad_bar in all "
+    "three cases of the importer - assumed 4/4, sanitize step, ordinary - (import_time_signature_cases, "
+    "import_signatures_spec); for time_sig_change and for any file only that nothing is invented and nothing of the "
+    "part's own tracks is lost (import_time_sig_change_positions, import_time_signatures_of_file, "
+    "import_signature_sets): which imported part receives which REWRITTEN signature of time_sig_change is modelled and "
+    "compared only; the imported tempo positions are proved (import_tempo_positions)",
     "Tempo values (bpm -> microseconds per quarter) are C12's conversion; here positions and the written integer",
     "an `anacrusis_behavior` string other than the three documented ones (accepted silently by the code when the score "
     "has no pickup) is outside the model",
@@ -161,7 +181,12 @@ RULE = ("seeded musical scores: 1-3 parts (optionally in part groups, also neste
         "that applies the edits to the ORIGINAL tables. `reject` cases: unsupported modes, scores without any sounding "
         "note and their accepted neighbours (model and code compared). Per score one call with every optional argument "
         "omitted (defaults regenerated from the signatures) and, per mode, the model's decision that the score is in the "
-        "theorems' domain (ScoreNoOverlap). "
+        "theorems' domain (ScoreNoOverlap). Per successful import (same mode in the score cases, any of the six modes in "
+        "the `hist` cases) the part numbers and the key / time signatures of every imported part are compared with the "
+        "model's prediction FROM THE SCORE (`impspec`: importedPartIds, specImportedKS, specImportedTS; time signatures "
+        "when the policy is not time_sig_change). A few scores per run (and corpus cases s1 / s2) have a sounding part - or "
+        "every part - without any time signature, exported with `shift`: they reach the importer's sanitize step and "
+        "the assumed 4/4. "
         "distinct = distinct case description; non-trivial = at least one sounding note written")
 LEVEL_TEXT = ("Lean 4 theorems over all scores: for every list of parts, mode, anacrusis policy, minimum ppq and velocity "
               "for which the model of save_score_midi returns a file, pairing each written track returns exactly the "
@@ -182,11 +207,18 @@ LEVEL_TEXT = ("Lean 4 theorems over all scores: for every list of parts, mode, a
               "(ScoreNoOverlap, score_domain_gives_tick_domain), so that property_C04 states the whole round trip - both "
               "stages return, ppq rule, notes in quarters, (part, voice) cells for ANY import mode "
               "(roundtrip_cells_any_import_mode, grouping_recovered_any_import_mode), tempo events "
-              "(import_tempo_positions) - from hypotheses about the user's input only; pad_bar_integral_iff shows the "
+              "(import_tempo_positions) - from hypotheses about the user's input only; the key and time signatures of "
+              "every imported part are exactly those of the score parts with a note in a track from which the import "
+              "mode builds the part, at the written ticks of their positions, as strictly ascending lists equal to an "
+              "executable function of the score (import_key_signature_positions, import_time_signature_positions, "
+              "import_time_signature_cases - assumed 4/4, sanitize step, ordinary case -, "
+              "import_time_sig_change_positions, import_signatures_spec, property_C04_signatures; for any file "
+              "import_signature_sets, import_time_signatures_of_file: sorted(set(...)) of the tracks of the part and the "
+              "global ones, sanitize step included); pad_bar_integral_iff shows the "
               "pad_bar side condition is exact; a score object that was read and then edited is exported as it is then "
               "(edit_history_export, edited_export_exact, edited_note_ticks, set_quarter_duration_takes_effect / _rate), "
               "the zero-length dispatch follows the duration and not the class (zero_length_iff_no_duration), the defaults "
-              "and literals of the live source are the model's (source_constants, default_call); on top of the "
+              "and literals of the live source are the model's (source_constants, default_call, import_options_default_off); on top of the "
               "per-track theorems (integer ticks, ppq = lcm * 2^k minimal, delta round trip, stable event order, pairing "
               "automaton, six modes). Tied to the code by a differential run of the real save_score_midi / "
               "load_score_midi / load_performance_midi against the executable models AND against the theorems' "
@@ -714,6 +746,22 @@ def cases(rng, tier):
         else:
             cfgs = [[m, a, mp, rng.choice([1, 30, 64, 90, 127])] for m in MODES for a in ANAC for mp in MINPPQ]
         yield {"k": "score", "score": sd, "configs": cfgs}
+    # scores in which one sounding part (or every part) has NO time signature: the importer's sanitize step (signatures
+    # shared across all parts) and the assumed 4/4; `shift` only (time_sig_change / pad_bar read the signatures), no pickup
+    for i in range(10 if tier == "quick" else 150):
+        r2 = random.Random(rng.randrange(2 ** 62))
+        for _ in range(50):
+            sd = gen_score(r2)
+            if all(pickup_of1(pd) == 0 and not any(m[2] == 0 for m in pd["measures"]) for pd in sd["parts"]):
+                break
+        else:
+            continue
+        k = r2.randrange(len(sd["parts"])) if (len(sd["parts"]) > 1 and r2.random() < 0.75) else None
+        for j, pd in enumerate(sd["parts"]):
+            if k is None or j == k:
+                pd["ts"] = []
+        yield {"k": "score", "score": sd, "nots": "one" if k is not None else "all",
+               "configs": [[m, "shift", r2.choice(MINPPQ), r2.choice([1, 64, 127])] for m in MODES]}
 
 
 # ====================================================================== construction
@@ -1141,6 +1189,8 @@ def eval_score(d):
     n_sound = sum(len(sounding_desc(pd)) for pd in sd["parts"])
     rows = score_rows(score)
     org_of = {}
+    sounding_parts_have_ts = all(any(True for _ in p.iter_all(S.TimeSignature)) for p in score.parts if p.notes_tied)
+    impspec_seen = Counter()
     # ---- the domain of the theorems (`ScoreNoOverlap`, hypothesis of property_C04) holds for what is generated: no two
     # notes of equal pitch overlap within a (track, channel) of any mode, decided by the model on the real parts
     if n_sound > 0 and domain_ok(sd):
@@ -1258,19 +1308,25 @@ def eval_score(d):
             ev.oracle.append("import raised: [%s] load_score_midi raised %s: %s" % (tag, type(e3).__name__, str(e3)[:120]))
         else:
             if pnotes is not None:
-                # the (part, voice) in which every note came back (`writtenCells` of roundtrip_cells)
-                ev.requests[spec_slot] = "expspec 1 %s %s" % (args, ptoks)
+                # the (part, voice) in which every note came back (`writtenCells` of roundtrip_cells), and the key / time
+                # signatures of every imported part as functions of the SCORE (`import_signatures_spec`: flag 2; the time
+                # signatures - flag 4 - when the policy is not time_sig_change: assumed 4/4, sanitize step, ordinary case)
+                with_ts = anac != "time_sig_change"
+                if with_ts and not sounding_parts_have_ts:
+                    impspec_seen["sanitize-or-assumed"] += 1
+                ev.requests[spec_slot] = "expspec %d %s %s" % (3 + (4 if with_ts else 0), args, ptoks)
                 ev.impl[spec_slot] = ev.impl[spec_slot][:-1] + W.f_list(
                     lambda c: W.f_tuple(W.f_int(c[0]), W.f_int(c[1]), W.f_int(c[2]), W.f_int(c[3]), W.f_int(c[4])),
                     sorted((n.start.t, int(n.midi_pitch), n.duration_tied, int(p2.id[1:]) - 1, int(n.voice or 0))
-                           for p2 in sc2.parts for n in p2.notes_tied))
+                           for p2 in sc2.parts for n in p2.notes_tied)) + "#" + import_sig_text(sc2, with_ts)
+                impspec_seen["%d>%d %s%s" % (mode, mode, anac, " +ts" if with_ts else "")] += 1
             # the imported parts, and their notes in musical time (`importedRows` of score_roundtrip)
             readers(6, [import_text(sc2),
                         rows_text((Fraction(n.start.t, mf.ticks_per_beat) + org, Fraction(n.duration_tied, mf.ticks_per_beat),
                                    int(n.midi_pitch)) for p2 in sc2.parts for n in p2.notes_tied)])
         ev.oracle += oracle(sd, order, cfg, mf, tracks, pnotes, sc2, tag)
     ev.key = None if n_sound == 0 else "score:%s" % hash_desc(d)
-    ev.info = {"parts": len(sd["parts"]), "notes": n_sound}
+    ev.info = {"parts": len(sd["parts"]), "notes": n_sound, "impspec": dict(impspec_seen)}
     return ev
 
 
@@ -1440,6 +1496,21 @@ def eval_hist(d):
                     ref_cache[k] = call(load_performance_midi, path)
             return ref_cache[k]
 
+        # the parts as the exporter read them, for the `impspec` stream (the signatures of an import in ANY mode as functions
+        # of the score: theorem import_signatures_spec)
+        import partitura.score as S
+        tops, gidx = [], []
+        for p in score.parts:
+            top = p
+            while top.parent:
+                top = top.parent
+            if not any(top is t for t in tops):
+                tops.append(top)
+            gidx.append([i for i, t in enumerate(tops) if t is top][0])
+        ptoks = " ".join(part_tokens(p, g) for p, g in zip(score.parts, gidx))
+        with_ts = anac != "time_sig_change"
+        impspec_done = set()
+        impspec_seen = Counter()
         for oi, op in enumerate(d["ops"]):
             where = "use %d %r of %r" % (oi, op, d["ops"])
             if op[0] == "I":
@@ -1459,6 +1530,12 @@ def eval_hist(d):
                     txt, rtxt = import_text(sc2), import_text(rsc)
                     model_ops.append("I %d" % op[1])
                     texts.append(txt)
+                    if op[1] not in impspec_done and vel > 0 and n_sound > 0:
+                        impspec_done.add(op[1])
+                        ev.requests.append("impspec %d %d %d %s %d %d %s" % (1 if with_ts else 0, op[1], mode, anac, minppq,
+                                                                           len(score.parts), ptoks))
+                        ev.impl.append(import_sig_text(sc2, with_ts))
+                        impspec_seen["%d>%d %s%s" % (mode, op[1], anac, " +ts" if with_ts else "")] += 1
                     got = Counter((Fraction(int(n.start.t), ticks0) + org, Fraction(int(n.duration_tied), ticks0), int(n.midi_pitch))
                                   for p2 in sc2.parts for n in p2.notes_tied)
                     if got != want_ms:
@@ -1519,6 +1596,7 @@ def eval_hist(d):
                     ev.oracle.append("hist(object changed): [%s] %s changed the MidiFile object it was given: %s" % (tag, where, df))
         ev.requests.append("hist %d %s %s" % (ticks0, ttoks, W.lst(lambda o: o, model_ops)))
         ev.impl.append("#".join(texts + [deltas_text(mf)]))
+        ev.info["impspec"] = dict(impspec_seen)
     # one line per clause is enough
     seen, res = set(), []
     for f in ev.oracle:
@@ -1605,6 +1683,22 @@ def import_text(sc):
     tempos = sorted((tp.start.t, tp.microseconds_per_quarter) for tp in first.iter_all(S.Tempo))
     rows.sort(key=lambda r: r[0])
     return "[" + ",".join(r[1] for r in rows) + "]|" + W.f_list(lambda t: W.f_tuple(W.f_int(t[0]), W.f_int(t[1])), tempos)
+
+
+def import_sig_text(sc, with_ts):
+    """key (and time) signatures of the parts of a real import, in the form of the driver's `impspec`"""
+    import partitura.score as S
+
+    rows = []
+    for p in sc.parts:
+        pid = int(p.id[1:]) - 1
+        kss = [(k.start.t, k.name) for k in p.iter_all(S.KeySignature)]
+        tss = [(t.start.t, t.beats, t.beat_type) for t in p.iter_all(S.TimeSignature)]
+        rows.append((pid, W.f_tuple(
+            W.f_int(pid), W.f_list(lambda k: W.f_tuple(W.f_int(k[0]), k[1]), kss),
+            W.f_list(lambda t: W.f_tuple(*[W.f_int(x) for x in t]), tss) if with_ts else "-")))
+    rows.sort(key=lambda r: r[0])
+    return "[" + ",".join(r[1] for r in rows) + "]"
 
 
 # ====================================================================== when the exporter returns
@@ -2344,4 +2438,24 @@ def distribution(descs, results):
         "raw_files_importer_raised": sum(1 for r in results if isinstance(r, dict) and (r.get("info") or {}).get("raw_import_raised")),
         "with_ties": sum(1 for d in sc if any(n.get("tie") for pd in d["score"]["parts"] for n in pd["notes"])),
         "notes": sum(r.get("info", {}).get("notes", 0) for r in results if isinstance(r, dict)),
+        "impspec_observations": _impspec_counts(results),
+        "scores_with_a_part_without_time_signature": dict(Counter(d["nots"] for d in sc if d.get("nots"))),
     }
+
+
+def _impspec_counts(results):
+    """observations of the `impspec` comparison (signatures of the imported parts as functions of the score) by
+    export mode > import mode, with / without the time signatures, per policy"""
+    tot = Counter()
+    for r in results:
+        if isinstance(r, dict):
+            for k, v in ((r.get("info") or {}).get("impspec") or {}).items():
+                if " " not in k:
+                    tot[k] += v
+                    continue
+                mm, rest = k.split(" ", 1)
+                a, b = mm.split(">")
+                tot["same mode" if a == b else "other import mode"] += v
+                tot["policy " + rest] += v
+                tot["export mode " + a] += v
+    return dict(sorted(tot.items()))
